@@ -416,3 +416,18 @@ where
         f(context.mutation_context())
     }
 }
+
+// Read-only verification hooks (cfg(gc_arena_verif)); never compiled in normal builds.
+#[cfg(gc_arena_verif)]
+pub use crate::context::verif as verif_snapshot_types;
+
+#[cfg(gc_arena_verif)]
+impl<R> Arena<R>
+where
+    R: for<'a> Rootable<'a>,
+{
+    /// Read-only snapshot of the collector state (verification builds only).
+    pub fn verif_snapshot(&self) -> crate::context::verif::Snapshot {
+        self.context.verif_snapshot()
+    }
+}
